@@ -628,6 +628,106 @@ def close_race_case(seed: int) -> Optional[dict]:
     return None
 
 
+def several_brokers_case(seed: int) -> Optional[dict]:
+    """Two or three PubSub brokers alive at the same time in one process, using equal keys (every Nextline object has a broker with the keys
+    'state_name', 'run_info', …): each broker's topics are its own — subscribers receive exactly what was published on THEIR broker, `latest`
+    is their broker's, and ending / closing one broker does not touch the subscribers of another."""
+    import random as _r
+    from nextline.utils.pubsub import PubSub
+    rng = _r.Random(seed)
+    nb = rng.choice([2, 2, 3])
+    keys = ['state_name', 'k'][:rng.choice([1, 2])]
+    plan = []
+    for _ in range(rng.randint(6, 16)):
+        b = rng.randrange(nb)
+        plan.append((rng.choice(['pub', 'pub', 'pub', 'latest', 'sub']), b, rng.choice(keys)))
+    ender = rng.randrange(nb)
+    how = rng.choice(['end', 'close'])
+    msgs: list = []
+
+    async def main() -> None:
+        brokers = [PubSub() for _ in range(nb)]
+        expected: dict = {}        # (broker, key) -> items published so far
+        subs: list = []            # (broker, key, start position, received list, task)
+
+        async def reader(b: int, k: str, got: list) -> None:
+            async for x in brokers[b].subscribe(k, last=False):
+                got.append(x)
+
+        def start_sub(b: int, k: str) -> None:
+            got: list = []
+            subs.append((b, k, len(expected.get((b, k), [])), got, asyncio.ensure_future(reader(b, k, got))))
+        for b in range(nb):
+            for k in keys:
+                start_sub(b, k)
+        await _drain(asyncio.get_running_loop())
+        n = 0
+        for op, b, k in plan:
+            if op == 'pub':
+                n += 1
+                item = f'{b}:{k}:{n}'
+                await brokers[b].publish(k, item)
+                expected.setdefault((b, k), []).append(item)
+            elif op == 'sub':
+                start_sub(b, k)
+            else:
+                want = expected.get((b, k), [])
+                try:
+                    got = brokers[b].latest(k)
+                    if not want or got != want[-1]:
+                        msgs.append(f'latest({k!r}) of broker {b} is {got!r}; published on that broker: {want}')
+                except LookupError:
+                    if want:
+                        msgs.append(f'latest({k!r}) of broker {b} raised LookupError; published on that broker: {want}')
+            await _drain(asyncio.get_running_loop())
+        # one broker ends its topics / closes: its subscribers terminate, the others' do not
+        if how == 'end':
+            for k in keys:
+                await brokers[ender].end(k)
+        else:
+            await brokers[ender].close()
+        await _drain(asyncio.get_running_loop())
+        for b, k, pos, got, t in subs:
+            want = expected.get((b, k), [])[pos:]
+            if got != want:
+                msgs.append(f'a subscriber of {k!r} on broker {b} received {got}; published on that broker since it subscribed: {want}')
+            if b == ender and not t.done():
+                msgs.append(f'a subscriber of {k!r} on broker {b} did not terminate when that broker did {how}()')
+            if b != ender and t.done():
+                msgs.append(f'a subscriber of {k!r} on broker {b} terminated when broker {ender} did {how}()')
+        # the others still work afterwards
+        for b in range(nb):
+            if b == ender:
+                continue
+            for k in keys:
+                item = f'{b}:{k}:after'
+                await brokers[b].publish(k, item)
+                expected.setdefault((b, k), []).append(item)
+        await _drain(asyncio.get_running_loop())
+        for b, k, pos, got, t in subs:
+            if b != ender and got != expected.get((b, k), [])[pos:]:
+                msgs.append(f'after broker {ender} did {how}(), a subscriber of {k!r} on broker {b} has received {got}; published there since it subscribed: {expected.get((b, k), [])[pos:]}')
+        for b in range(nb):
+            await brokers[b].close()
+        await _drain(asyncio.get_running_loop())
+        for b, k, pos, got, t in subs:
+            if not t.done():
+                msgs.append(f'a subscriber of {k!r} on broker {b} did not terminate when its broker was closed')
+                t.cancel()
+    loop = asyncio.new_event_loop()
+    try:
+        t = loop.create_task(main())
+        loop.run_until_complete(asyncio.wait_for(t, timeout=60))
+    except BaseException as e:  # noqa
+        return {'seed': seed, 'error': f'scenario failed: {type(e).__name__}: {e}', 'messages': [f'scenario failed: {type(e).__name__}: {e}'], 'plan': plan}
+    finally:
+        loop.run_until_complete(loop.shutdown_asyncgens())
+        loop.close()
+    if msgs:
+        return {'seed': seed, 'brokers': nb, 'keys': keys, 'plan': plan, 'ender': ender, 'how': how, 'messages': [f'{nb} brokers alive at once with equal keys {keys}: ' + m for m in msgs]}
+    return None
+
+
 def many_subscribers_case(seed: int) -> Optional[dict]:
     """One topic with many subscribers (more than any batch size an implementation may use), some leaving after their first item."""
     from nextline.utils.pubsub.broker import PubSub
@@ -692,7 +792,8 @@ def many_subscribers_case(seed: int) -> Optional[dict]:
 def _conc_shard(seeds: list) -> list:
     out = []
     for s, vb in seeds:
-        r = close_race_case(s) if vb == 'close-race' else many_subscribers_case(s) if vb == 'many' else concurrent_case(s, vb)
+        r = (close_race_case(s) if vb == 'close-race' else many_subscribers_case(s) if vb == 'many' else several_brokers_case(s) if vb == 'brokers'
+             else concurrent_case(s, vb))
         out.append((s, vb, r))
     return out
 
@@ -825,7 +926,8 @@ def run(chk: common.Check) -> None:
         results = pool.map(_shard, shards)
         nconc = 300 if chk.tier == 'quick' else 5000
         cs = [(chk.seed * 100003 + i, i % 2 == 1) for i in range(nconc)] + [(chk.seed * 100019 + i, 'close-race') for i in range(nconc)] + \
-            [(chk.seed * 100043 + i, 'many') for i in range(32 if chk.tier == 'quick' else 400)]
+            [(chk.seed * 100043 + i, 'many') for i in range(32 if chk.tier == 'quick' else 400)] + \
+            [(chk.seed * 100057 + i, 'brokers') for i in range(120 if chk.tier == 'quick' else 2000)]
         conc = pool.map(_conc_shard, [cs[i::nshards] for i in range(nshards)])
     impl: dict[int, tuple[list[str], list[str]]] = {}
     for sh in results:
